@@ -171,8 +171,23 @@ Definition queue_resolved (g : graph) (s : state) (t : nat) : state :=
        end.
 
 (* asyncError: LogBuildError(label, TargetBuildFailed); state.Stop() *)
-Definition async_error (g : graph) (s : state) (l : nat) : state :=
-  set_closed (log_fail g (set_trace s (OErr l :: trace s)) false) true.
+(* LogBuildError(label, TargetBuildFailed) followed by state.Stop(): always (checkForCycles), or as asyncError does it
+   (Gen/StateOrder.v: asyncerror_stops_always - unconditionally in the source as it is; were it `if !state.KeepGoing`,
+   a --keep_going build would go on, with the broken target never finishing) *)
+Definition err_stop (always : bool) (g : graph) (s : state) (l : nat) : state :=
+  let s' := log_fail g (set_trace s (OErr l :: trace s)) false in
+  if always || negb (g_keep_going g) then set_closed s' true else s'.
+Definition async_error (g : graph) (s : state) (l : nat) : state := err_stop asyncerror_stops_always g s l.
+
+(* the end of a non-building queueTargetAsync: `if building && target.SyncUpdateState(Active, Pending)` does nothing
+   (Gen/StateOrder.v: pending_cas_needs_building); without the `building &&` this pass, which has not waited for any
+   dependency, would hand out the build task of a target that a forced request has made Active meanwhile *)
+Definition semi_release (s : state) (t : nat) : state :=
+  if pending_cas_needs_building then s else
+  match cas [cas_pending] (ts s t) with
+  | Some new => set_sendq (set_numPending (set_ts s (upd (ts s) t new)) (numPending s + 1)%Z) (t :: sendq s)
+  | None => s
+  end.
 
 Definition all_decl_exist (g : graph) (s : state) (p : nat) : bool :=
   forallb (fun t => negb (g_decl g t && Nat.eqb (g_pkg g t) p) || ex s t) (seq 0 (g_n g)).
@@ -317,7 +332,7 @@ Definition apply (g : graph) (s : state) (l : label) : state :=
           set_semi s (t :: semi s)
       | None => s
       end
-  | LSemiDone t => task_done (set_semi s (remove1 t (semi s)))
+  | LSemiDone t => task_done (semi_release (set_semi s (remove1 t (semi s))) t)
   | LAsyncQueueDep t =>
       match asy s t with
       | AQueue (d :: r) =>
@@ -391,7 +406,7 @@ Definition apply (g : graph) (s : state) (l : label) : state :=
   | LForward => set_nfwd s (S (nfwd s))
   | LStop => set_closed s true
   | LTimerCycleCheck c =>
-      let s := async_error g s (hd 0 c) in      (* LogBuildError(cycle[0], TargetBuildFailed); state.Stop() *)
+      let s := err_stop true g s (hd 0 c) in    (* checkForCycles: LogBuildError(cycle[0], TargetBuildFailed); state.Stop() *)
       set_cycreported s true
   | LExitRun => set_exited s true
   end.
